@@ -79,6 +79,7 @@ impl TableRefresh {
 //@end
 
 //@begin fn src/action/refresh.rs impl:TableRefresh continue_refresh rules=R-deasync props=C18,C19
+    #[verifier::loop_isolation(false)]
     pub fn continue_refresh(
         &mut self,
         socket: &Socket,
@@ -155,11 +156,12 @@ impl TableRefresh {
                 body: MessageBody::Request(Request::FindNode(find_node_req)),
             };
 
-            // Send the message
-            if let Err(error) = socket.send(&find_node_msg, node.addr, Tracked(tr)) {
-            }
             proof {
                 assert forall|t: TransactionID| #[trigger] t.bytes@ == find_node_msg.transaction_id@ implies t == trans_id by { assert(t.bytes =~= trans_id.bytes); }
+            }
+
+            // Send the message
+            if let Err(error) = socket.send(&find_node_msg, node.addr, Tracked(tr)) {
             }
 
             // Mark that we requested from the node
